@@ -3,6 +3,7 @@ import PhysisModel.Proofs.MdlPlaced
 import PhysisModel.Proofs.MdlFill
 import PhysisModel.Proofs.MdlRedundant
 import PhysisModel.Proofs.SoftFloat
+import PhysisModel.Proofs.BinrwTieMdl
 /-!
 # C06 — model parsing yields the stored geometry for every vertex layout
 
@@ -546,5 +547,50 @@ example : ∃ l mesh s, sampleModel.lods[0]? = some l ∧ l.meshes[0]? = some me
     (⟨0, 8, 13, 4, 0⟩ : VertexElement) ∈ mesh.decl ∧ mesh.streams[(0 : UInt8).toNat]? = some s ∧
     1 < mesh.vertexCount.toNat ∧ (8 : UInt8).toNat + 4 ≤ s.stride.toNat := by
   refine ⟨_, _, _, rfl, rfl, ?_, rfl, ?_, ?_⟩ <;> decide
+
+end Physis.C06
+
+/-! ### T4: binrw declarations regenerated from the source
+
+`Generated/BinrwMdl.lean` is re-translated from the `#[binrw]` declarations of `src/model.rs` on every
+run (`lib/binrw2lean.py`); the `Mdl.P` parsers of `Model/Mdl.lean`, applied to their input, are
+`Layout.read` of the regenerated descriptors followed by a pure projection, with a read error as
+`.error .fail` (`BinrwTie.Mdl.toR`; `Proofs/BinrwTieMdl.lean`), for all inputs.
+`BinrwTie.Mdl.endian` is the regenerated endianness of `ModelData` (`#[brw(little)]`), inside which the
+records are read. -/
+namespace Physis.C06
+open Physis.Binrw Physis.Generated
+
+/-- `ModelFileHeader` (own `#[brw(little)]`; the ambient `.big` is deliberately the wrong one); the two
+`map = read_bool_from::<u8>` closures are applied by the projection -/
+theorem c06_binrw_ModelFileHeader (l : Bytes) :
+    Mdl.parseFileHeader l =
+      BinrwTie.Mdl.toR (via BinrwTie.Mdl.fileHeaderOf (Layout.read .big BinrwMdl.modelFileHeader l)) :=
+  BinrwTie.Mdl.parseFileHeader_eq_generated l
+
+theorem c06_binrw_Mesh (l : Bytes) :
+    Mdl.parseMesh l =
+      BinrwTie.Mdl.toR (via BinrwTie.Mdl.meshOf (Layout.read BinrwTie.Mdl.endian BinrwMdl.mesh l)) :=
+  BinrwTie.Mdl.parseMesh_eq_generated l
+
+theorem c06_binrw_Submesh (l : Bytes) :
+    Mdl.parseSubmesh l =
+      BinrwTie.Mdl.toR (via BinrwTie.Mdl.submeshOf (Layout.read BinrwTie.Mdl.endian BinrwMdl.submesh l)) :=
+  BinrwTie.Mdl.parseSubmesh_eq_generated l
+
+theorem c06_binrw_ShapeStruct (l : Bytes) :
+    Mdl.parseShape l =
+      BinrwTie.Mdl.toR (via BinrwTie.Mdl.shapeStructOf (Layout.read BinrwTie.Mdl.endian BinrwMdl.shapeStruct l)) :=
+  BinrwTie.Mdl.parseShape_eq_generated l
+
+theorem c06_binrw_ShapeMesh (l : Bytes) :
+    Mdl.parseShapeMesh l =
+      BinrwTie.Mdl.toR (via BinrwTie.Mdl.shapeMeshOf (Layout.read BinrwTie.Mdl.endian BinrwMdl.shapeMesh l)) :=
+  BinrwTie.Mdl.parseShapeMesh_eq_generated l
+
+theorem c06_binrw_ShapeValue (l : Bytes) :
+    Mdl.parseShapeValue l =
+      BinrwTie.Mdl.toR (via BinrwTie.Mdl.shapeValueOf (Layout.read BinrwTie.Mdl.endian BinrwMdl.shapeValue l)) :=
+  BinrwTie.Mdl.parseShapeValue_eq_generated l
 
 end Physis.C06
